@@ -52,6 +52,7 @@ func c13TopDecadeF(c *hx.Ctx, r *hx.RNG) {
 func c13Case(c *hx.Ctx, r *hx.RNG, idx int64) {
 	if idx%4000000 == 29 {
 		c13TopDecadeF(c, r)
+		releaseHuge()
 		return
 	}
 	if r.Chance(55) {
